@@ -138,7 +138,7 @@ class RunResult:
         self.timed_out = False
 
 
-def run_script(world, text, job=None, execute=True, limit=20.0):
+def run_script(world, text, job=None, execute=True, limit=20.0, max_events=None):
     """Compile (unless a job is given) and execute `text` in `world`; never raises."""
     from bardolph.controller.script_job import ScriptJob
     res = RunResult()
@@ -163,12 +163,18 @@ def run_script(world, text, job=None, execute=True, limit=20.0):
         timer = threading.Timer(limit, lambda: (setattr(res, 'timed_out', True), job.request_stop()))
         timer.daemon = True
         timer.start()
+        # ... or when it has produced far more events than any script handed to this function owes
+        rec = world.rec
+        if hasattr(rec, 'overflow_at') and max_events is not None:
+            rec.overflow_at, rec.overflow = mark + max_events, lambda: (setattr(res, 'timed_out', True), job.request_stop())
         try:
             job.execute()
         except BaseException as ex:
             res.run_exception = ex
         finally:
             timer.cancel()
+            if hasattr(rec, 'overflow_at'):
+                rec.overflow_at = rec.overflow = None
         res.events = world.rec.events[mark:]
         for level, msg in world.log.records[nlog:]:
             if msg.startswith('Machine stopped due to'):
